@@ -848,7 +848,9 @@ Proof.
       rewrite O1, R1, V2, O5, O2, R3, R2, V1, W1, N2. cbn [is_file_exists is_not_exist negb andb orb].
       rewrite (perm_on_write_searchable _ _ _ G3), (perm_on_write_searchable _ _ _ F3).
       rewrite G1, F1, Hnd, N1. unfold may_delete. rewrite Hnd, Hgoc. cbn [negb andb orb].
-      replace (Nat.eqb oc op) with false by (symmetry; apply Nat.eqb_neq; exact Hne). cbn [orb negb andb].
+      assert (Hnep : Nat.eqb oc par = false).
+      { destruct (Nat.eqb_spec oc par) as [<-|]; [|reflexivity]. cbn [is_ancestor] in N1. rewrite Nat.eqb_refl in N1. discriminate N1. }
+      replace (Nat.eqb oc op) with false by (symmetry; apply Nat.eqb_neq; exact Hne). rewrite Hnep. cbn [orb negb andb].
       destruct (kperm (f_heap s) op 3 (v_user (sv_view sv))) eqn:Hpo; cbn [negb]; [|reflexivity].
       destruct (sticky_refuses (f_heap s) op oc (v_user (sv_view sv))); [reflexivity|].
       destruct (Nat.eqb_spec par op) as [->|Hnp]; cbn [negb andb].
@@ -967,25 +969,28 @@ Proof.
     destruct Hc as [Hc|[Hc|[Hc|Hc]]]; rewrite Hc; reflexivity.
 Qed.
 
-(* ---- Chown / Lchown by a non-administrator ------------------------------------------------------------------------ *)
-(* MemFS refuses every such call with EPERM before looking at the path; the kernel refuses (EPERM) exactly the
-   changes of [chown_refused] once the path is resolved.  The two agree where the path resolves and the kernel
-   refuses; everything else is listed (C03-CHOWN-NONROOT: the owner may give the file to one of its groups, (-1,-1)
-   is a no-op for anybody; C03-ERRNO-PRIORITY: the walk's error comes first in the kernel) *)
-Definition chown_refused (m : meta) (u : user) (uid gid : Z) : bool :=
-  negb (us_admin u
-        || (Z.eqb uid (-1) && Z.eqb gid (-1))
-        || (Z.eqb (m_uid m) (us_uid u) && (Z.eqb uid (-1) || Z.eqb uid (m_uid m)) && (Z.eqb gid (-1) || Z.eqb gid (us_gid u)))).
-
-Theorem dstep_chown_refused (slm : slmode) (s : fsys) (sv : sview) (p : str) (uid gid : Z) (par : nat) (kind : lastk) (name : str) (n : nat) (nd : node) :
-  us_admin (v_user (sv_view sv)) = false -> v_idm (sv_view sv) = true ->
-  klookup s sv false (follow_of slm) p = WNode par kind name n -> get (f_heap s) n = Some nd ->
-  chown_refused (node_meta nd) (v_user (sv_view sv)) uid gid = true ->
-  (fst (chown_gen slm s (sv_view sv) p uid gid), proj_res Linux (snd (chown_gen slm s (sv_view sv) p uid gid)))
-  = k_chown (follow_of slm) s sv p uid gid.
+(* ---- Chown / Lchown, any user --------------------------------------------------------------------------------------- *)
+(* on a file system with an identity manager ([v_idm]) MemFS applies the rules of chown(2) once the path is resolved:
+   the administrator may do anything; the owner may change the group to its own (or leave it), not the owner; anybody
+   may pass (-1,-1); everything else is EPERM ([chown_ok], shared with Posix.v); the set-id bits of a non-directory are
+   cleared ([chown_meta]) *)
+Theorem dstep_chown (slm : slmode) (s : fsys) (sv : sview) (cs : list str) (uid gid : Z) :
+  dac_hyps s sv -> path_ok s sv slm cs -> v_idm (sv_view sv) = true ->
+  (fst (chown_gen slm s (sv_view sv) (abs_path cs) uid gid),
+   proj_res Linux (snd (chown_gen slm s (sv_view sv) (abs_path cs) uid gid)))
+  = k_chown (follow_of slm) s sv (abs_path cs) uid gid.
 Proof.
-  intros Ha Hi HK Hg Hr. unfold chown_gen, k_chown. rewrite Ha, Hi, HK, Hg. cbn [negb andb orb fst snd proj_res].
-  unfold chown_refused in Hr. rewrite Ha in Hr. cbn [orb] in Hr. cbv zeta. rewrite Hr. reflexivity.
+  intros H Hp Hi. pose proof (dresolve s sv slm cs H Hp) as R. destruct Hp as (_ & _ & Hnf).
+  unfold chown_gen, k_chown, win in *. rewrite (dh_os _ _ H), Hi. cbn [ostype_eqb andb].
+  destruct (klookup s sv false (follow_of slm) (abs_path cs)) as [par kind name n|par name md| |e]; cbn [walk_rel] in R.
+  - destruct R as (R1 & R2 & R3 & _). rewrite R2, R1. cbn [is_file_exists negb].
+    destruct (get (f_heap s) n) as [nd|] eqn:Hg; [|congruence].
+    destruct (chown_ok (node_meta nd) (v_user (sv_view sv)) uid gid); cbn [negb]; [|reflexivity].
+    destruct nd as [ch m|dt k i m|t m]; reflexivity.
+  - destruct R as (R1 & R2 & _). rewrite R2, R1. reflexivity.
+  - destruct R.
+  - destruct R as (R1 & _). destruct (werr_cases _ _ R1 Hnf) as (Hc & ->).
+    destruct (sr_child _); destruct Hc as [->|[->|[->| ->]]]; reflexivity.
 Qed.
 
 (* ---- the step theorem at the level of worlds, any user ----------------------------------------------------------- *)
@@ -1006,6 +1011,8 @@ Definition dcovered (phl : bool) (vi : nat) (sw : sworld) (c : call) : Prop :=
   | CReadlink vi' p => vi' = vi /\ exists cs, p = abs_path cs /\ path_ok s sv SlLstat cs
   | CChtimes vi' p => vi' = vi /\ exists cs, p = abs_path cs /\ path_ok s sv SlEval cs
   | CChmod vi' p mode => vi' = vi /\ exists cs, p = abs_path cs /\ path_ok s sv SlEval cs
+  | CChown vi' p _ _ => vi' = vi /\ v_idm (sv_view sv) = true /\ exists cs, p = abs_path cs /\ path_ok s sv SlEval cs
+  | CLchown vi' p _ _ => vi' = vi /\ v_idm (sv_view sv) = true /\ exists cs, p = abs_path cs /\ path_ok s sv SlLstat cs
   | CTruncate vi' p _ => vi' = vi /\ exists cs, p = abs_path cs /\ path_ok s sv SlEval cs
   | CMkdir vi' p _ =>
       vi' = vi /\ exists w cl, p = abs_path (w ++ [cl]) /\ path_ok s sv SlLstat (w ++ [cl])
@@ -1157,6 +1164,20 @@ Proof.
     + apply (impl_lift w _ _ (wstep_chmod w vi _ Hv p mode)); [left; discriminate|exact I].
     + reflexivity.
     + rewrite <- Hfs, Ep. exact (dstep_chmod (sw_fs sw) (sw_sv sw) cs mode H Hp).
+  - (* Chown *)
+    destruct Hc as (-> & Hi & cs & Ep & Hp).
+    apply (dworld_of_lift phl w vi sw Ha _ (chown_gen SlEval (w_fs w) (sv_view (sw_sv sw)) p uid gid)
+             (k_chown true (sw_fs sw) (sw_sv sw) p uid gid)).
+    + apply (impl_lift w _ _ (wstep_chown w vi _ Hv p uid gid)); [left; discriminate|exact I].
+    + reflexivity.
+    + rewrite <- Hfs, Ep. exact (dstep_chown SlEval (sw_fs sw) (sw_sv sw) cs uid gid H Hp Hi).
+  - (* Lchown *)
+    destruct Hc as (-> & Hi & cs & Ep & Hp).
+    apply (dworld_of_lift phl w vi sw Ha _ (chown_gen SlLstat (w_fs w) (sv_view (sw_sv sw)) p uid gid)
+             (k_chown false (sw_fs sw) (sw_sv sw) p uid gid)).
+    + apply (impl_lift w _ _ (wstep_lchown w vi _ Hv p uid gid)); [left; discriminate|exact I].
+    + reflexivity.
+    + rewrite <- Hfs, Ep. exact (dstep_chown SlLstat (sw_fs sw) (sw_sv sw) cs uid gid H Hp Hi).
   - (* Chtimes *)
     destruct Hc as (-> & cs & Ep & Hp).
     apply (dworld_of_ro phl w vi sw Ha _ (chtimes (w_fs w) (sv_view (sw_sv sw)) p) (k_utimes (sw_fs sw) (sw_sv sw) p)).
